@@ -197,6 +197,8 @@ impl Matcher {
                 &self.pools,
                 &future_consumption,
                 &same_day_reservations,
+                &self.positions,
+                &transactions,
             );
 
             i = day_end;
